@@ -94,6 +94,14 @@ def parseEv (s : String) : Option (Ev × String × Option Bytes) :=
   -- (Props/C15Cluster.lean clientDo_refines: the routed request is the single-store request)
   | ["mg", k, _] => do let k ← Hex.decode k; pure (.tick 0, "mg", some k)
   | ["mk", k] => do let k ← Hex.decode k; pure (.tick 0, "mk", some k)
+  -- a call answered AFTER the caller's deadline: "d" = the call waited for it (an ordinary call), "t" = it gave up
+  -- (the script still ran: a lost-but-applied call). Every LATER call gets the store's answer to that call.
+  | ["late", "c", k, i, "d"] => do let k ← Hex.decode k; let i ← Hex.decode i; pure (.campaign k i, "late", some k)
+  | ["late", "r", k, i, "d"] => do let k ← Hex.decode k; let i ← Hex.decode i; pure (.renew k i, "late", some k)
+  | ["late", "x", k, i, "d"] => do let k ← Hex.decode k; let i ← Hex.decode i; pure (.resign k i, "late", some k)
+  | ["late", "c", k, i, "t"] => do let k ← Hex.decode k; let i ← Hex.decode i; pure (.lostCampaign k i true, "late", some k)
+  | ["late", "r", k, i, "t"] => do let k ← Hex.decode k; let i ← Hex.decode i; pure (.lostCampaign k i true, "late", some k)
+  | ["late", "x", k, i, "t"] => do let k ← Hex.decode k; let i ← Hex.decode i; pure (.lostResign k i true, "late", some k)
   | ["lc", k, i, a, _] => do
     let k ← Hex.decode k; let i ← Hex.decode i; let a ← parseBool a
     pure (.lostCampaign k i a, "lc", some k)
